@@ -6,6 +6,7 @@ import Lean.Data.Json
 import Rbql.Model.Engine
 import Rbql.Spec.EngineSpec
 import Rbql.Spec.Comparable
+import Rbql.Model.EngineJs
 import Rbql.Model.Header
 namespace Driver
 open Rbql Lean
@@ -217,6 +218,39 @@ def opQuery (payload : String) : String :=
           | .error e => if q.top.isSome then .null else .bool (r.error == some e)
       (Json.mkObj [
         ("specOk", specOk),
+        ("rows", .arr (r.rows.map (fun row => Json.arr (row.map encVal).toArray)).toArray),
+        ("err", encErr r.error),
+        ("pulled", Json.num (JsonNumber.fromNat r.pulled)),
+        ("writes", Json.num (JsonNumber.fromNat r.sink.writes)),
+        ("afterRefusal", Json.num (JsonNumber.fromNat r.sink.afterRefusal)),
+        ("finished", Json.num (JsonNumber.fromNat r.sink.finished)),
+        ("warnA", encWarn4 r.warnA), ("warnB", encWarn4 r.warnB)]).compress
+
+/-- the rbql-js leg: the same case through the model of the rbql.js engine (`Model/EngineJs.lean`).  `refinesOk` is the
+cross-check, on this very case, of the refinement theorem `runJs = run` (null when its hypotheses do not apply) -/
+def opQueryJs (payload : String) : String :=
+  match Json.parse payload with
+  | .error e => "bad-json " ++ e
+  | .ok j =>
+    match (do
+      let (q, refuse) ← decQuery (← j.getObjVal? "q")
+      let A ← decTableJ (← j.getObjVal? "A")
+      let B ← match optField j "B" with | some b => decTableJ b | none => pure []
+      let hb : Nat := match optField j "header_b" with
+        | some h => (match h.getArr? with | .ok a => a.size | .error _ => 0)
+        | none => 0
+      let q := { q with join := q.join.map (fun js => { js with nullWidth := hb }) }
+      pure (q, refuse, A, B) : Except String _) with
+    | .error e => "bad-case " ++ e
+    | .ok (q, refuse, A, B) =>
+      let r := runJs q A B { refuseFrom := refuse }
+      let refinesOk : Json :=
+        if refuse.isSome then .null
+        else match runChecked q A B {} with
+          | .hostTypeError _ => .null
+          | .result r0 => .bool (r0.rows == r.rows && r0.error == r.error && r0.pulled == r.pulled)
+      (Json.mkObj [
+        ("specOk", .null), ("refinesOk", refinesOk),
         ("rows", .arr (r.rows.map (fun row => Json.arr (row.map encVal).toArray)).toArray),
         ("err", encErr r.error),
         ("pulled", Json.num (JsonNumber.fromNat r.pulled)),
